@@ -95,6 +95,12 @@ type Session struct {
 	delivery    module.Delivery
 	deliveryErr error
 
+	// rawRcpts maps the normalized form of each accepted recipient to the
+	// forms the client used in RCPT TO, in order. LMTP per-recipient
+	// statuses are reported to go-smtp using the latter.
+	rawRcpts     map[string][]string
+	rawRcptsLock sync.Mutex
+
 	log log.Logger
 }
 
@@ -156,6 +162,10 @@ func (s *Session) cleanSession() {
 	s.deliveryErr = nil
 	s.msgCtx = nil
 	s.msgTask.End()
+
+	s.rawRcptsLock.Lock()
+	s.rawRcpts = nil
+	s.rawRcptsLock.Unlock()
 }
 
 func (s *Session) AuthPlain(username, password string) error {
@@ -416,7 +426,33 @@ func (s *Session) rcpt(ctx context.Context, to string, opts *smtp.RcptOptions) e
 		}
 	}
 
-	return s.delivery.AddRcpt(ctx, cleanTo, *opts)
+	if err := s.delivery.AddRcpt(ctx, cleanTo, *opts); err != nil {
+		return err
+	}
+
+	s.rawRcptsLock.Lock()
+	if s.rawRcpts == nil {
+		s.rawRcpts = make(map[string][]string)
+	}
+	s.rawRcpts[cleanTo] = append(s.rawRcpts[cleanTo], to)
+	s.rawRcptsLock.Unlock()
+
+	return nil
+}
+
+// rawRcpt returns the address the client used for the accepted recipient
+// cleanTo. If it was specified several times in different forms, they are
+// returned in order.
+func (s *Session) rawRcpt(cleanTo string) string {
+	s.rawRcptsLock.Lock()
+	defer s.rawRcptsLock.Unlock()
+
+	raw := s.rawRcpts[cleanTo]
+	if len(raw) == 0 {
+		return cleanTo
+	}
+	s.rawRcpts[cleanTo] = raw[1:]
+	return raw[0]
 }
 
 func (s *Session) Logout() error {
@@ -529,7 +565,9 @@ type statusWrapper struct {
 }
 
 func (sw statusWrapper) SetStatus(rcpt string, err error) {
-	sw.sc.SetStatus(rcpt, sw.s.endp.wrapErr(sw.s.msgMeta.ID, !sw.s.opts.UTF8, "DATA", err))
+	// go-smtp identifies recipients by the address as specified in RCPT TO,
+	// the pipeline works with the normalized one.
+	sw.sc.SetStatus(sw.s.rawRcpt(rcpt), sw.s.endp.wrapErr(sw.s.msgMeta.ID, !sw.s.opts.UTF8, "DATA", err))
 }
 
 func (s *Session) LMTPData(r io.Reader, sc smtp.StatusCollector) error {
